@@ -187,11 +187,20 @@ def preprocessing(run, h, rng):
             itf = InstrumentTransferFunction(poles=[], zeros=[], instrument_sensitivity=sens, normalization_factor=1.0)
         y = rng.normal(size=n) + 5.0
         rec2 = h.SeismicRecording3C(ts(y, dt), ts(y * 2, dt), ts(y - 7, dt))
-        with warnings.catch_warnings():
-            warnings.simplefilter("ignore")
-            out2 = h.preprocess([copy.deepcopy(rec2)], h.PsdPreProcessingSettings(instrument_transfer_function=itf, **base))[0]
-        if not (np.allclose(out2.ns.amplitude, (y - y.mean()) / sens, atol=1e-9) and np.allclose(out2.vt.amplitude, (y - y.mean()) / sens, atol=1e-9)):
-            run.violation("psd-pre:flat-response", f"n={n} fs={fs}: removing a flat response of sensitivity {sens} does not give (x - mean)/sensitivity", rep)
+        # the record is demeaned and tapered first; "division by sensitivity with the mean removed" then acts on the TAPERED
+        # series, whose mean is not zero any more when the taper has a width
+        for width in (0.0, float(rng.choice([0.3, 1.0]))):
+            from scipy.signal.windows import tukey as _tukey
+            base_w = dict(base, window_type_and_width=["tukey", width])
+            with warnings.catch_warnings():
+                warnings.simplefilter("ignore")
+                out2 = h.preprocess([copy.deepcopy(rec2)], h.PsdPreProcessingSettings(instrument_transfer_function=itf, **base_w))[0]
+            z = (y - y.mean()) * _tukey(n, alpha=width)
+            want = (z - z.mean()) / sens
+            if not (np.allclose(out2.ns.amplitude, want, atol=1e-9) and np.allclose(out2.ew.amplitude, 2 * want, atol=2e-9)
+                    and np.allclose(out2.vt.amplitude, want, atol=1e-9)):
+                run.violation("psd-pre:flat-response", f"n={n} fs={fs} taper width {width}: removing a flat response of sensitivity {sens} does not give "
+                              f"(tapered series - its mean)/sensitivity (max abs diff {np.max(np.abs(out2.ns.amplitude - want)):.3g})", dict(rep, width=width))
         run.case(("pre", t))
 
 
